@@ -650,6 +650,24 @@ def noprecedence(repo):
                     ok = True
         if not ok:
             res.add(f"{SR}|{f.qualname}|ambiguity-guard", "ambiguous_name_error is not tied to a previous match", SR, loop.lineno, f.qualname)
+        # ... and it is reported for *every* second match: inside the `is not None` block nothing skips to the next scope
+        # before the error has been appended
+        for g in [n for n in ast.walk(loop) if isinstance(n, ast.If) and "is not None" in ast.unparse(n.test)
+                  and any(isinstance(c, ast.Call) and (call_name(c) or "").endswith("ambiguous_name_error") for c in ast.walk(n))]:
+            res.instances += 1
+            report_at = next((i for i, st in enumerate(g.body) if any(isinstance(c, ast.Call) and (call_name(c) or "").endswith("ambiguous_name_error")
+                                                                       for c in ast.walk(st))), None)
+            for i, st in enumerate(g.body):
+                if report_at is None or i >= report_at:
+                    break
+                for x in ast.walk(st):
+                    if isinstance(x, (ast.Continue, ast.Break, ast.Return)):
+                        res.add(f"{SR}|{f.qualname}|ambiguity-skipped", f"a second match is skipped (`{ast.unparse(st).splitlines()[0][:80]}`) before "
+                                "ambiguous_name_error is reported: a name defined in two visible scopes is then bound by precedence "
+                                "(to the innermost definition) instead of being rejected", SR, x.lineno, f.qualname)
+            if report_at is not None and isinstance(g.body[report_at], (ast.If, ast.For, ast.While, ast.Try)):
+                res.add(f"{SR}|{f.qualname}|ambiguity-conditional", f"ambiguous_name_error is reported only under "
+                        f"`{ast.unparse(g.body[report_at]).splitlines()[0][:80]}`", SR, g.body[report_at].lineno, f.qualname)
     # the visibility test
     if not re.search(r"scope == current_scope or .*visibility == _Scope\.SEARCHABLE", src.replace("\n", " ")):
         res.add(f"{SR}|{f.qualname}|visibility", "names are matched without the `scope == current_scope or SEARCHABLE` "
